@@ -259,6 +259,11 @@ def monitors(case, obs):
 
 
 def run(ctx):
+    fds = qc.fd_count()
+    return qc.fd_audit(_run(ctx), fds)
+
+
+def _run(ctx):
     t0 = time.time()
     so = qc.load(ctx)
     Obj, AR = _build(so)
